@@ -124,11 +124,24 @@ fn run(ctx: &mut Ctx) {
                     continue;
                 }
                 if kind == 1 {
-                    events.push(Ev { id: if rng.bool() { 8 } else { 3 }, serial, banks: vec![("SEQ2".into(), rng.bytes(12)), ("ATAT".into(), Trg::simple(5, 5).encode())] });
+                    // sequencer / unknown events; now and then with a large incompressible bank (> 32 KiB)
+                    let big = if rng.chance(0.15) { 40_000 + rng.usize(80_000) } else { 12 };
+                    events.push(Ev { id: if rng.bool() { 8 } else { 3 }, serial, banks: vec![("SEQ2".into(), rng.bytes(big)), ("ATAT".into(), Trg::simple(5, 5).encode())] });
                     continue;
                 }
                 total_main += 1;
-                ts = ts.wrapping_add(if big_steps { rng.next() as u32 } else { rng.below(1 << 26) as u32 });
+                // steps: random; sometimes exactly 0 (two triggers in the same tick), 2^31 - 1, 2^31, 2^32 - 1
+                ts = ts.wrapping_add(match rng.below(12) {
+                    0 => 0,
+                    1 => *rng.pick(&[1u32, 0x7FFF_FFFF, 0x8000_0000, 0x8000_0001, 0xFFFF_FFFF]),
+                    _ => {
+                        if big_steps {
+                            rng.next() as u32
+                        } else {
+                            rng.below(1 << 26) as u32
+                        }
+                    }
+                });
                 let first = k == 0 && e == 0;
                 let undec = match undec_mode {
                     0 => false,
@@ -231,7 +244,13 @@ fn run(ctx: &mut Ctx) {
             let bytes = midas::file_bytes(f.run, f.t0, f.t1, &evs);
             d.bytes(&bytes);
             let p = dir.join(&f.name);
-            midas::write(&p, &bytes);
+            if f.name.ends_with(".lz4") && rng.chance(0.4) {
+                // the same content written with a flush every few hundred bytes: many short lz4 blocks
+                midas::write_lz4_flushed(&p, &bytes, *rng.pick(&[64usize, 512, 4096, 40_000]));
+                ctx.count(".lz4 files written with flushes between pieces");
+            } else {
+                midas::write(&p, &bytes);
+            }
             paths.push(p);
         }
         if nfiles >= 2 || wraps >= 1 || undecodable >= 1 {
